@@ -16,8 +16,8 @@ def fake_run_jobs(self, jobs, procs=None):
                 v.pop('path', None)
             print(json.dumps({k: v for k, v in r.items() if k not in ('smt2', 'funcs', 'samples', 'contracts')}, indent=1, default=str)[:8000])
             out.append(r)
-            break
-    self.cleanup()
-    sys.exit(0)
+            self.cleanup()
+            sys.exit(0)
+    return []
 common.Check.run_jobs = fake_run_jobs
 mod.main()
